@@ -19,8 +19,16 @@ def _resolve(path):
 def _init():
     # workers: quiet logging, private hash seed already inherited
     import logging
+    import resource
 
     logging.disable(logging.CRITICAL)
+    # memory guard: a runaway allocation in the code under test becomes a MemoryError in that
+    # worker (reported as a failure signature) instead of taking the machine down
+    lim = int(os.environ.get("VERIF_WORKER_MEM_GB", "1")) * (1 << 30)
+    try:
+        resource.setrlimit(resource.RLIMIT_AS, (lim, lim))
+    except (ValueError, OSError):
+        pass
 
 
 def _call(job):
